@@ -261,13 +261,14 @@ def mutate_automaton_text(rnd, text):
     return '\n'.join(lines)
 
 
-def simple_cfg(rnd, productive=True):
+def simple_cfg(rnd, productive=True, nullable=False):
     while True:
         V = ['S', 'A', 'B'][:rnd.randint(1, 3)]; rules = []
         for v in V:
             for _ in range(rnd.randint(1, 3)):
                 rhs = [rnd.choice(V + ['a', 'b', 'a', 'b']) for _ in range(rnd.randint(0 if not productive else 1, 3))]
                 if (v, rhs) not in rules: rules.append((v, rhs))
+        if nullable: rules.append((rnd.choice(V), []))       # an epsilon rule (the variable keeps its other, productive rules)
         G = E.mk_cfg(rules, S='S', V=V, Sigma=sorted({x for _, r in rules for x in r if x not in V}) or ['a'], eps='ε')
         if not productive: return G
         # non-degenerate: every variable derives a non-empty word
